@@ -45,6 +45,8 @@ impl ProgSpec {
     pub fn to_json(&self) -> Value {
         match self {
             ProgSpec::Stmts(v) => json!({"stmts": v}),
+            // the pool-boundary programs are half a megabyte of text each: recorded by their construction
+            ProgSpec::Source(s) if s.len() > 300_000 && *s == pool_boundary_source(s.lines().count() + 2) => json!({"pool_boundary_source": s.lines().count() + 2}),
             ProgSpec::Source(s) => json!({"source": s}),
             // a pool beyond the u16 count cannot be written by any encoder: such a model is recorded by its construction
             ProgSpec::Model(m) if m.consts.len() > 65_535 => json!({"boundary_pool": m.consts.len()}),
@@ -58,6 +60,9 @@ impl ProgSpec {
         }
         if let Some(s) = v.get("source").and_then(|x| x.as_str()) {
             return Some(ProgSpec::Source(s.to_string()));
+        }
+        if let Some(n) = v.get("pool_boundary_source").and_then(|x| x.as_u64()) {
+            return Some(ProgSpec::Source(pool_boundary_source(n as usize)));
         }
         if let Some(n) = v.get("boundary_pool").and_then(|x| x.as_u64()) {
             return Some(ProgSpec::Model(foreign::boundary_pool_model(n as usize)));
@@ -215,5 +220,16 @@ pub fn scale_templates() -> Vec<(String, String)> {
 
 /// Qualification for scale templates: same idea as `qualify`, with a budget that admits their long loops.
 pub fn qualify_scaled(name: &str, spec: &ProgSpec, default_budget: u64) -> Option<vm::RunResult> {
-    qualify(spec, if name.starts_with("scale:") { 4_000_000 } else { default_budget })
+    qualify(spec, if name.starts_with("scale:") || name.starts_with("boundary:") { 4_000_000 } else { default_budget })
+}
+
+/// Programs whose constant pool ends up with exactly `total` entries, around the largest count the file format can carry in its
+/// u16 header (65 535): n distinct integer statements, one format string, the entry method. Whatever `run` accepts here every
+/// stage must accept, and what the format cannot carry `run` must refuse as well. (Compiling one takes seconds: pool look-ups are linear.)
+pub fn pool_boundary_source(total: usize) -> String {
+    let n = total - 3; // the format string, the entry method and its name
+    let mut s = String::with_capacity(n * 7);
+    for i in 0..n { s.push_str(&i.to_string()); s.push_str(";\n"); }
+    s.push_str("print(\"x\\n\")\n");
+    s
 }
